@@ -344,6 +344,10 @@ def gen_lifecycle(p, rng, limit):
                "@0 ito %d" % rng.randrange(N), "@1 ito %d" % rng.randrange(N), "@0 attach %d" % (idx % 2), "@0 update", "@1 update", "@0 obs", "@1 obs"]
         if feat_has(p, "S"):
             ls += ["@0 save", "@1 save"]
+        if feat_has(p, "P") and idx % 3 == 0:
+            # a report made while no plan exists, a copy, then the first task on both: the copy must remember the report too
+            ls += ["@0 px", "@0 succeed 0", "@0 fail %d" % (N - 1), "@0 ito 0", "mark lanes", "@2 copy 0", "@0 pc 0 %d" % (N - 1), "@2 pc 0 %d" % (N - 1),
+                   "@0 update", "@2 update", "@0 update", "@2 update", "mark none", "@2 dtor"]
         if p.get("manual"):
             ls += ["@0 exit", "@0 enter", "@0 update", "@0 exit"]
         ls += ["@0 dtor", "@0 ctor 1 3 0"]
